@@ -12,6 +12,8 @@ import (
 	"os"
 	"strconv"
 	"strings"
+	"sync"
+	"sync/atomic"
 	"testing"
 	"time"
 
@@ -48,6 +50,62 @@ func slack() time.Duration {
 		}
 	}
 	return 3 * time.Second
+}
+
+// ---------------------------------------------------------------------------------------------------------------
+// Process heartbeat. The sweep loop of the gater and the stream handlers are goroutines of this process; when the
+// machine is overloaded they are delayed together with everything else here. Waiting is therefore measured in
+// heartbeats of a goroutine of this process (one beat >= 5 ms of wall time *and* one scheduling round), and a verdict
+// of the form "should have happened by now" is only final if it persists while the process demonstrably runs.
+// ---------------------------------------------------------------------------------------------------------------
+
+var (
+	hbOnce   sync.Once
+	hbBeats  atomic.Int64
+	hbStalls atomic.Int64 // beats that took more than 250 ms
+)
+
+func heartbeat() {
+	hbOnce.Do(func() {
+		go func() {
+			for {
+				t := time.Now()
+				time.Sleep(5 * time.Millisecond)
+				if time.Since(t) > 250*time.Millisecond {
+					hbStalls.Add(1)
+				}
+				hbBeats.Add(1)
+			}
+		}()
+	})
+}
+
+func waitBeats(n int64) {
+	heartbeat()
+	start := hbBeats.Load()
+	for hbBeats.Load()-start < n {
+		time.Sleep(5 * time.Millisecond)
+	}
+}
+
+// persists re-runs an observation whose failure is of the "should be over by now" kind: check returns the violation
+// text and whether it is of that kind. Such a failure counts only if it is still there after >= 600 further beats
+// (>= 3 s during which this process was scheduled 600 times).
+func persists(check func() (string, bool)) string {
+	v, soft := check()
+	if v == "" || !soft {
+		return v
+	}
+	heartbeat()
+	start := hbBeats.Load()
+	for hbBeats.Load()-start < 600 {
+		waitBeats(10)
+		v, soft = check()
+		if v == "" || !soft {
+			return v
+		}
+	}
+	return v + " [re-checked over 600 process heartbeats]"
 }
 
 // canon returns the canonical identity of an IP: IPv4-mapped IPv6 addresses are the IPv4 address.
@@ -146,13 +204,13 @@ func (s *ipState) zone(t0, t1 time.Time) string {
 func (m *banModel) penalty(ip string, amount int, ret int, known bool, t0, t1 time.Time) string {
 	s := m.get(ip)
 	switch s.zone(t0, t1) {
-	case "free":
-		m.expire(s)
 	case "must":
 		// still banned: the statement says nothing about the score of a banned IP; the engine renews the ban.
 		s.upper = maxTime(s.upper, m.upperAfter(t1))
 		return ""
-	case "maybe":
+	case "maybe", "free":
+		// "free" is not asserted here (a late sweep is judged by the gate queries, which can be re-checked): the
+		// return value tells whether the old entry was still there.
 		if known && ret == amount {
 			m.expire(s) // the entry had been swept: this is a fresh score
 		} else {
@@ -194,18 +252,18 @@ var gateName = [...]string{"InterceptPeerDial", "InterceptAddrDial", "InterceptA
 func ipGate(g int) bool { return g == gAddrDial || g == gAccept || g == gSecuredIn }
 
 // gate records the answer of one gate for ip observed in [t0,t1]; returns a violation text or "".
-func (m *banModel) gate(ip string, g int, allowed bool, t0, t1 time.Time) string {
+func (m *banModel) gate(ip string, g int, allowed bool, t0, t1 time.Time) (string, bool) {
 	s := m.get(ip)
 	if m.black[ip] {
 		if ipGate(g) && allowed {
-			return fmt.Sprintf("%s accepted blacklisted IP %s", gateName[g], ip)
+			return fmt.Sprintf("%s accepted blacklisted IP %s", gateName[g], ip), false
 		}
-		return ""
+		return "", false
 	}
 	switch s.zone(t0, t1) {
 	case "clean":
 		if !allowed {
-			return fmt.Sprintf("%s refused %s which is neither banned (model score %d < %d) nor blacklisted", gateName[g], ip, s.score, threshold)
+			return fmt.Sprintf("%s refused %s which is neither banned (model score %d < %d) nor blacklisted", gateName[g], ip, s.score, threshold), false
 		}
 		if s.everBanned && ipGate(g) {
 			s.sawAfterExpiry()
@@ -213,13 +271,13 @@ func (m *banModel) gate(ip string, g int, allowed bool, t0, t1 time.Time) string
 	case "must":
 		if ipGate(g) {
 			if allowed {
-				return fmt.Sprintf("%s accepted banned IP %s %.3fs before the ban may end (score %d >= %d)", gateName[g], ip, s.mustEnd.Sub(t1).Seconds(), s.score, threshold)
+				return fmt.Sprintf("%s accepted banned IP %s %.3fs before the ban may end (score %d >= %d)", gateName[g], ip, s.mustEnd.Sub(t1).Seconds(), s.score, threshold), false
 			}
 			s.qDuringBan = true
 		}
 	case "free":
 		if ipGate(g) && !allowed {
-			return fmt.Sprintf("%s still refuses %s %.3fs after the latest time the ban may last (expiry %v + 1s + sweep %v + slack %v)", gateName[g], ip, t0.Sub(s.upper).Seconds(), m.expiry, m.sweep, m.slack)
+			return fmt.Sprintf("%s still refuses %s %.3fs after the latest time the ban may last (expiry %v + 1s + sweep %v + slack %v)", gateName[g], ip, t0.Sub(s.upper).Seconds(), m.expiry, m.sweep, m.slack), true
 		}
 		if ipGate(g) {
 			m.expire(s)
@@ -231,24 +289,24 @@ func (m *banModel) gate(ip string, g int, allowed bool, t0, t1 time.Time) string
 			s.sawAfterExpiry()
 		}
 	}
-	return ""
+	return "", false
 }
 
 // listed records whether ip appeared in listBannedPeers observed in [t0,t1].
-func (m *banModel) listed(ip string, present bool, t0, t1 time.Time) string {
+func (m *banModel) listed(ip string, present bool, t0, t1 time.Time) (string, bool) {
 	s := m.get(ip)
 	switch s.zone(t0, t1) {
 	case "clean":
 		if present {
-			return fmt.Sprintf("listBannedPeers contains %s which is not banned (model score %d)", ip, s.score)
+			return fmt.Sprintf("listBannedPeers contains %s which is not banned (model score %d)", ip, s.score), false
 		}
 	case "must":
 		if !present {
-			return fmt.Sprintf("listBannedPeers lacks banned IP %s", ip)
+			return fmt.Sprintf("listBannedPeers lacks banned IP %s", ip), false
 		}
 	case "free":
 		if present {
-			return fmt.Sprintf("listBannedPeers still contains %s %.3fs after the latest time the ban may last", ip, t0.Sub(s.upper).Seconds())
+			return fmt.Sprintf("listBannedPeers still contains %s %.3fs after the latest time the ban may last", ip, t0.Sub(s.upper).Seconds()), true
 		}
 		m.expire(s)
 	case "maybe":
@@ -256,7 +314,7 @@ func (m *banModel) listed(ip string, present bool, t0, t1 time.Time) string {
 			m.expire(s)
 		}
 	}
-	return ""
+	return "", false
 }
 
 // scoreSeen compares a score lookup (absent = 0) made in [t0,t1] with the model; only asserted when the IP is certainly
